@@ -112,6 +112,13 @@ class Exec(Engine):
             return [st], []
         if z3.is_false(cond):
             return [], [st]
+        # already decided on this path?  (cheap syntactic look-up before asking the solver)
+        neg = z3.simplify(z3.Not(cond))
+        for h in reversed(st.pc[-40:]):
+            if h.eq(cond):
+                return [st], []
+            if h.eq(neg):
+                return [], [st]
         a, b = st.copy(), st.copy()
         a.assume(cond)
         b.assume(z3.Not(cond))
@@ -653,6 +660,10 @@ class Exec(Engine):
         line = getattr(node, 'lineno', 0)
         env = self.bind_params(fnode, args, kwargs, st, starv, dstar, self_val)
         self.used_contracts.add(c.key)
+        # ghost record of calls made to contracted functions (for `internal` postconditions of the caller)
+        st = st.copy()
+        st.marks = dict(st.marks)
+        st.marks['ccalls'] = list(st.marks.get('ccalls', [])) + [(c.qualname, dict(env))]
         pre = st.copy()
         caller_env = st.env
         pre.env = env
@@ -699,20 +710,24 @@ class Exec(Engine):
         state is refined by a case split, so the caller keeps what the callee provably leaves alone.
         Returns the list of resulting states."""
         states = [st]
+        # one case split per distinct condition
+        groups = {}
         for m in modifies:
             if isinstance(m, tuple):
-                cond, path = m
-                nxt = []
-                for s in states:
-                    yes, no = self.fork(s, self.sbool(cond, s))
-                    for y in yes:
-                        self.havoc_path(y, path)
-                        nxt.append(y)
-                    nxt.extend(no)
-                states = nxt
+                groups.setdefault(m[0], []).append(m[1])
             else:
                 for s in states:
                     self.havoc_path(s, m)
+        for cond, paths in groups.items():
+            nxt = []
+            for s in states:
+                yes, no = self.fork(s, self.sbool(cond, s))
+                for y in yes:
+                    for path in paths:
+                        self.havoc_path(y, path)
+                    nxt.append(y)
+                nxt.extend(no)
+            states = nxt
         return states
 
     def havoc_path(self, st, path):
